@@ -113,6 +113,20 @@ def _materialise_lazy_dict(st, d, k, v):
     return st
 
 
+def to_record(st, d):
+    """view a dict as a record (literal keys, any values): possible when it is one already, is still empty, or has only ever been
+    stored into with literal keys"""
+    rec = st.objs[d.oid]
+    if rec.get("pure"):
+        return st
+    if rec.get("lazy"):
+        return st.setobj(d.oid, {"pure": True, "pyitems": ()})
+    tracked = rec.get("pyitems")
+    if tracked is not None and rec["dom"].eq(rec["pysig"][0]) and rec["val"].eq(rec["pysig"][1]):
+        return st.setobj(d.oid, {"pure": True, "pyitems": tracked})
+    raise Unsupported("dict cannot be viewed as a record (symbolic keys)")
+
+
 def _py_store(items, key, val):
     out, hit = [], False
     for k, v in items:
@@ -182,6 +196,10 @@ def getitem(eng, st, obj, idx):
     if isinstance(obj, VTuple):
         if isinstance(idx, VInt):
             return [("ok", st, obj.items[_conc_index(idx.t)])]
+        if isinstance(idx, VSlice):
+            def c(x):
+                return None if isinstance(x, VNone) else _conc_index(x.t)
+            return [("ok", st, VTuple(list(obj.items)[slice(c(idx.lo), c(idx.hi), c(idx.step))]))]
         raise Unsupported("tuple slicing")
     if isinstance(obj, VObj) and obj.kind == "pylist" and isinstance(idx, VInt):
         return [("ok", st, st.objs[obj.oid]["items"][_conc_index(idx.t)])]
@@ -193,6 +211,9 @@ def getitem(eng, st, obj, idx):
         return list_getitem(eng, st, obj, idx)
     if isinstance(obj, VObj) and obj.kind == "dict":
         return dict_getitem(eng, st, obj, idx)
+    if isinstance(obj, VConc) and isinstance(obj.py, dict) and isinstance(idx, VConc):
+        # constant dictionary, literal key
+        return [("ok", st, obj.py[idx.py])] if idx.py in obj.py else [eng.raise_(st, "KeyError")]
     raise Unsupported(f"subscript of {obj!r}")
 
 
@@ -240,6 +261,8 @@ def contains(eng, st, cont, item):
             v = _py_lookup(rec["pyitems"], item.py)
             if isinstance(v, VOpaque) and v.what == "maybe-entry":
                 raise Unsupported("membership of a record entry whose presence is unknown")
+            if isinstance(v, tuple):
+                return [("ok", st, VBool(v[1]))]
             return [("ok", st, VBool(v is not None))]
         try:
             k = unwrap(item, rec["kkind"])
@@ -440,7 +463,15 @@ def list_extend(eng, st, l, it):
         ax1 = FA([j], z3.Implies(z3.And(0 <= j, j < n), z3.Select(e2, j) == z3.Select(e, j)), patterns=[z3.Select(e2, j)])
         src = unwrap(seq.get(s, j - n), rec["ekind"])
         ax2 = FA([j], z3.Implies(z3.And(n <= j, j < n + m), z3.Select(e2, j) == src), patterns=[z3.Select(e2, j)])
-        return [("ok", s.assume(ax1, ax2, m >= 0).updobj(l.oid, len=n + m, elem=e2), NONE)]
+        axs = [ax1, ax2, m >= 0]
+        if seq.tag == "setiter" and isinstance(seq.src, tuple) and len(seq.src) >= 4 and seq.src[0] == "order":
+            # a list built by iterating a set / the keys of a dict contains every element: say where each one landed
+            _, order, pos, sdom = seq.src[:4]
+            x = z3.Const(fresh_name("cx"), order.sort().range())
+            at = pos[x] if z3.is_int_value(n) and n.as_long() == 0 else n + pos[x]
+            axs.append(FA([x], z3.Implies(z3.Select(sdom, x), z3.And(0 <= pos[x], pos[x] < m, z3.Select(e2, at) == x)),
+                          patterns=[z3.Select(sdom, x)]))
+        return [("ok", s.assume(*axs).updobj(l.oid, len=n + m, elem=e2), NONE)]
     return eng.bind(seq_outs, go)
 
 
@@ -474,7 +505,11 @@ def list_sort(eng, st, l, kw):
                     patterns=[z3.Select(e2, j), perm[j]])
     ax2 = FA([j], z3.Implies(z3.And(0 <= j, j < n), z3.And(0 <= inv[j], inv[j] < n, perm[inv[j]] == j)),
                     patterns=[inv[j]])
-    st = st.assume(ax1, ax2).updobj(l.oid, elem=e2)
+    # the same fact, triggered by an element of the list BEFORE sorting: where did it go
+    ax3 = FA([j], z3.Implies(z3.And(0 <= j, j < n), z3.And(0 <= inv[j], inv[j] < n, perm[inv[j]] == j,
+                                                            z3.Select(e2, inv[j]) == z3.Select(e, j))),
+             patterns=[z3.Select(e, j)])
+    st = st.assume(ax1, ax2, ax3).updobj(l.oid, elem=e2)
     st = st.setghost(("perm", l.oid), (perm, inv))
     return [("ok", st, NONE)]
 
@@ -490,6 +525,11 @@ def dict_getitem(eng, st, d, key):
         v = _py_lookup(rec["pyitems"], key.py)
         if isinstance(v, VOpaque) and v.what == "maybe-entry":
             raise Unsupported("read of a record entry whose presence is unknown")
+        if isinstance(v, tuple):          # ("maybe", cond, value): present exactly when cond holds
+            res = []
+            for ok, s2 in eng.branch(st, v[1]):
+                res.append(("ok", s2, v[2]) if ok else eng.raise_(s2, "KeyError"))
+            return res
         return [("ok", st, v)] if v is not None else [eng.raise_(st, "KeyError")]
     k = unwrap(key, rec["kkind"])
     res = []
@@ -984,8 +1024,11 @@ def bi_set(eng, st, pos, kw):
 
 
 def bi_dict(eng, st, pos, kw):
+    from . import comprehension as C
     if not pos and not kw:
         return [dict_from_pairs(eng, st, [])]
+    if len(pos) == 1 and not kw and isinstance(pos[0], C.VGen):
+        return C.dict_from_gen(eng, st, pos[0])
     raise Unsupported("dict(...) with arguments")
 
 
